@@ -11,7 +11,12 @@ import (
 // procedure's own contract, then in the contracts of the enclosing procedures.
 func (p *Proc) callbackClauses(name, kind string) []*Clause {
 	var out []*Clause
+	// clauses of the procedure itself and of the enclosing function declaration (clauses of
+	// intermediate closures speak about their own invocations only)
 	for fi := p.fi; fi != nil; fi = fi.Parent {
+		if fi != p.fi && fi.Parent != nil {
+			continue
+		}
 		ct := p.ctx.contracts[fi.Key]
 		if ct == nil {
 			continue
